@@ -164,6 +164,9 @@ func expect(c Case) ([]*hx.N, *stats, error) {
 	if c.Entry != "" {
 		m.st.add("entry:" + c.Entry)
 	}
+	if c.After != "" {
+		m.st.add("after-failure:" + c.After + "-engine")
+	}
 	for _, v := range c.Data {
 		switch v.K {
 		case "[]srec", "[]*srec", "[]sstr", "[]*sstr":
